@@ -6,7 +6,7 @@ import importlib
 from harness.meta import NOT_APPLICABLE, HOOK_COMMITS, READY
 META = {}
 for f in sorted(os.listdir(os.path.join(HERE, 'harness', 'props'))):
-    if f.startswith('c') and f.endswith('.py') and f[1:-3].isdigit():
+    if f.startswith('c') and f.endswith('.py') and f[1:-3].isdigit() and f[:-3].upper() in READY:
         mod = importlib.import_module('harness.props.' + f[:-3])
         if getattr(mod, 'META', None) and f[:-3].upper() in READY:
             META[f[:-3].upper()] = mod.META
